@@ -80,6 +80,7 @@ NewEndpoint(cfg, isn, rnxt0, pwnd0, now) ==
       probes   |-> 0, newSegs |-> 0, codeMss |-> cfg.mss0, codeMaxSs |-> 0,
       fin      |-> NoFin,
       splitDelivered |-> FALSE, \* a probe was re-segmented after the peer had already stored it (known finding)
+      popSince |-> "",         \* reason of a probe give-up since the last end-of-poll record ("" = none)
       popWhy |-> "", splitWhy |-> "",   \* why the last probe was given up; why the one that made splitDelivered true was
       \* receive side
       rnxt     |-> rnxt0,      \* last in-order sequence number stored
